@@ -14,6 +14,7 @@ import (
 	"verif/lib/gg"
 	"verif/lib/mc"
 	"verif/lib/refgeom"
+	"verif/lib/retain"
 )
 
 // Ffin: finite values at the magnitudes where %g switches to exponent form, plus precision edge cases
@@ -131,11 +132,18 @@ func classify(norm orb.Geometry, base string, err error) string {
 	return "wkt:" + pred
 }
 
+var kept retain.Keeper
+
 func roundTrip(c *mc.Ctx, g orb.Geometry) {
 	norm := refgeom.Normal(g, false)
 	text := wkt.MarshalString(g)
-	if b := wkt.Marshal(g); string(b) != text {
+	b := wkt.Marshal(g)
+	if string(b) != text {
 		c.Failf("marshal-differs", "Marshal and MarshalString differ for %v", g)
+	}
+	// the bytes an earlier Marshal returned must still be what it returned
+	if d := kept.Bytes(c.Worker, "text from wkt.Marshal", b, text); d != "" {
+		c.Failf("result-overwritten", "%s | now marshalling %q", d, text)
 	}
 	desc := fmt.Sprintf("geometry=%T %v text=%q", g, g, text)
 	got, err := wkt.Unmarshal(text)
